@@ -7,8 +7,9 @@ PT = "breezy.patches"
 FUNCTIONS = [PT + ":iter_patched_from_hunks", PT + ":Hunk.get_header", PT + ":Hunk.range_str", PT + ":Hunk.as_bytes",
              PT + ":Hunk.shift_to_mod", PT + ":Hunk.shift_to_mod_lines", PT + ":Patch.stats_values",
              PT + ":Patch.pos_in_mod", PT + ":Patch.iter_inserted", PT + ":parse_line", PT + ":HunkLine.get_str",
-             PT + ":PatchConflict.__init__"]
-STUBS = []
+             PT + ":PatchConflict.__init__", PT + ":iter_hunks", PT + ":hunk_from_header", "breezy.diff:unified_diff_bytes"]
+STUBS = ["generate_parse_apply: the sequence matcher (patiencediff, compiled) is replaced by a difflib.SequenceMatcher "
+         "subclass whose opcodes are the alignment of the symbolic edit script; grouping into hunks is difflib's own code"]
 ASSUMPTIONS = ["an edit script (leading unchanged lines, hunks of context/insert/remove lines, trailing unchanged lines) "
                "stands for the diff of the old text it deletes from and the new text it inserts into; hunk positions "
                "follow the unified-diff convention (1-based, counted on each side)",
